@@ -230,6 +230,12 @@ func (n *Namespace) add(c *serverConn, auth json.RawMessage) (*serverSocket, err
 func (n *Namespace) doConnect(socket *serverSocket) error {
 	n.sockets.set(socket)
 
+	// The connection must know the socket before the CONNECT packet is sent.
+	// Otherwise, a packet sent by the client right after it receives the
+	// CONNECT packet is treated as an invalid state and the connection is closed.
+	socket.conn.sockets.set(socket)
+	socket.conn.nsps.set(n)
+
 	// It is paramount that the internal `onconnect` logic
 	// fires before user-set events to prevent state order
 	// violations (such as a disconnection before the connection
